@@ -9,6 +9,14 @@ import (
 )
 
 func init() {
+	replayers["C02/secret-shapes"] = func(c *Ctx, raw json.RawMessage) string {
+		var cs struct {
+			Shape        []int
+			Carrier, Dir int
+		}
+		json.Unmarshal(raw, &cs)
+		return c02Shape(cs.Shape, cs.Carrier, cs.Dir, nil)
+	}
 	checks["C02"] = checkC02
 	rules["C02"] = "two-run non-interference: every (directive, value) cell, format program, directive pair and Sprint operand list is executed twice with the two instantiations of its unsafe leaves (same shape, lengths, line-feed positions; public parts shared) and the Redact() results must be byte-identical; with and without an error hook; distinct = distinct redacted outputs"
 	replayers["C02/directives"] = func(c *Ctx, raw json.RawMessage) string {
@@ -181,6 +189,51 @@ func c02Sprint(vs []int, seen func(string)) string {
 	return ""
 }
 
+// --- secret shapes: every short string over {letters, start marker, end marker, cross, LF, '?', space, lone
+// marker lead byte} as the secret, in every carrier, instead of a few fixed secrets: what the escaper does with a
+// secret depends on which of these are ADJACENT in it.
+
+var c02ShapeToks = [][2]string{{"kq", "WZ"}, {mStart, mStart}, {mEnd, mEnd}, {"\n", "\n"}, {"×", "×"}, {"?", "?"}, {" ", " "}, {"\xe2", "\xe2"}}
+
+var c02Carriers = []struct {
+	Name string
+	Mk   func(s string) interface{}
+}{
+	{"string", func(s string) interface{} { return s }},
+	{"[]byte", func(s string) interface{} { return []byte(s) }},
+	{"error", func(s string) interface{} { return errT{s} }},
+	{"Stringer", func(s string) interface{} { return strT{s} }},
+	{"Unsafe(string)", func(s string) interface{} { return redact.Unsafe(s) }},
+	{"[]string{s,s}", func(s string) interface{} { return []string{s, s} }},
+	{"struct{string;int}", func(s string) interface{} { return structT{7, s, s} }},
+	{"map[string]string{s:s}", func(s string) interface{} { return map[string]string{s: s} }},
+	{"Formatter(io.WriteString)", func(s string) interface{} { return fmtWST{s} }},
+	{"Unsafe([]interface{}{s,1,s})", func(s string) interface{} { return redact.Unsafe([]interface{}{s, 1, s}) }},
+	{"panic value", func(s string) interface{} { return panStrT{s} }},
+}
+
+var c02ShapeDirs = []string{"%v", "%s", "%q", "%x", "%+v", "%#v", "%12s", "%-12v", "%.3s", "%c"}
+
+func c02Shape(shape []int, carrier, dir int, seen func(string)) string {
+	var sec [2]string
+	for v := 0; v < 2; v++ {
+		for _, t := range shape {
+			sec[v] += c02ShapeToks[t][v]
+		}
+	}
+	mk := func(v int) []interface{} { return []interface{}{c02Carriers[carrier].Mk(sec[v])} }
+	for _, f := range []string{"p " + c02ShapeDirs[dir] + " r", c02ShapeDirs[dir] + "\n"} {
+		if d := c02Run(f, mk, seen); d != "" {
+			return d
+		}
+		var o redact.RedactableString
+		if _, pan := recoverTo(func() { o = redact.Sprintf(f, mk(0)...).Redact() }); !pan && strings.Contains(string(o), "kq") {
+			return fmt.Sprintf("Sprintf(%q, %s %q): redacted output %q contains the secret's letters", f, c02Carriers[carrier].Name, sec[0], o)
+		}
+	}
+	return ""
+}
+
 func checkC02(c *Ctx) {
 	u := universe()
 	sp := quickDirectives()
@@ -208,6 +261,22 @@ func checkC02(c *Ctx) {
 		})
 	}
 	dirSection("C02/directives")
+	ns := 4
+	if !c.Quick() {
+		ns = 6
+	}
+	she := NewSeqEnum(len(c02ShapeToks), ns)
+	c.Section("C02/secret-shapes", map[string]interface{}{"tokens": len(c02ShapeToks), "max_tokens": ns, "carriers": len(c02Carriers), "directives": c02ShapeDirs}, she.Total, func(i int, w *Worker) {
+		shape := she.Get(i, nil)
+		for ca := range c02Carriers {
+			for di := range c02ShapeDirs {
+				w.Eval()
+				if dt := c02Shape(shape, ca, di, w.SeenS); dt != "" {
+					w.Fail("secret-shape:"+c02Carriers[ca].Name, map[string]interface{}{"Shape": append([]int(nil), shape...), "Carrier": ca, "Dir": di}, dt)
+				}
+			}
+		}
+	})
 	k := 3
 	if !c.Quick() {
 		k = 4
